@@ -368,8 +368,11 @@ PROPS = {
               'matches v. (3) lowering: the NumUnsigned / NumSigned arms of TypedPattern::compile return a wire that is true exactly when the scrutinee value '
               'equals the literal, the Unsigned- / SignedInclusiveRange arms exactly when min <= value <= max (signed or unsigned comparison as the type '
               'demands). (4) first match: the Match arm of TypedExpr::compile (unit branches; clause patterns and bodies compiled by opaque recursive '
-              'calls) returns, for every input, the result wires of the first clause whose match wire is true. NOT under contract: the usefulness '
-              'recursion (usefulness, split_ctor, non-integer constructors), tuple / struct / enum patterns, parsing: as the labelled bounded stand-in, random and directed arm lists over 12 '
+              'calls) returns, for every input, the result wires of the first clause whose match wire is true. (5) structured constructors: the True / False, '
+              'Tuple, Struct, Variant and Array arms of specialize are contracted structurally - a variable head becomes one wildcard per field type, a '
+              'pattern of the same constructor (same struct / variant name) is replaced by its sub-patterns, in both cases followed by the rest of the '
+              'row, every other head drops the row. NOT under contract: the usefulness recursion (usefulness, split_ctor) that composes these steps, the '
+              'lowering of tuple / struct / enum patterns, parsing: as the labelled bounded stand-in, random and directed arm lists over 12 '
               'scrutinee types (incl. bounds outside the type, empty and inverted ranges) are decided on the real checker and compared with brute-force '
               'enumeration (accepted exactly when every value is matched; every accepted match compiled and evaluated against the first matching arm).',
         note='Trusted: <[T]>::sort_unstable returns a sorted permutation and Vec::dedup keeps the same elements and makes a sorted vector strictly increasing '
@@ -377,10 +380,12 @@ PROPS = {
              'return the constant wires of the low bits (external_body; bit layout of unsigned_to_bits / signed_to_bits proved by the C09 Kani harnesses); '
              'builder-core and comparator contracts (proved in units builder / arith, which this check runs too); bits == match_expr.len() <= 64 and '
              '"bounds fit the width" are preconditions of the lowering arms (established by pattern typing, whose call of expect_pattern_in_range is not '
-             'under contract); vstd; rules R0, R5, R5c, R7, R10, R11. Oracle of the bounded part: the pattern matcher in replay/src/c08.rs.',
+             'under contract); the iterator chains of specialize over the opaque tail iterator collect to "the elements, then the tail" (R36, external_body helpers); '
+             'Option::as_deref().unwrap_or_default() (R37); derived Clone of Type / Pattern returns an equal value; String equality through vstd (clauses stated under '
+             'obeys_eq_spec); an or-pattern with a guard is split into two arms (R38); vstd; rules R0, R5, R5c, R7, R10, R11. Oracle of the bounded part: the pattern matcher in replay/src/c08.rs.',
         title='match on integers: pattern bounds checked against the type, constructor splitting covers / is homogeneous, specialize and the lowering of '
-              'literal and range patterns exact, first matching clause decides (proved); usefulness recursion and structured patterns by bounded differential',
-        unverified=['usefulness, split_ctor, specialize for tuple / struct / enum / array constructors (recursion over pattern stacks): bounded differential only',
+              'literal and range patterns exact, specialization by structured constructors, first matching clause decides (proved); usefulness recursion and lowering of structured patterns by bounded differential',
+        unverified=['usefulness, split_ctor (the recursion over pattern stacks that composes splitting and specialization): bounded differential only',
                     'Pattern::type_check (that every integer pattern is passed to expect_pattern_in_range), range pattern parsing',
                     'tuple / struct / enum arms of TypedPattern::compile, bindings of the selected arm (environment merge mux_envs): bounded differential only'],
     ),
